@@ -154,6 +154,10 @@ pub fn run(tier: &str, seed: u64, em: &mut Emitter) {
             cases.push(v2);
         }
     }
+    for n in 1..=32u8 {
+        let mut v = vec![0xf2, n, 0x00]; v.extend(r.bytes(n as usize - 1)); cases.push(v.clone());
+        v.push(0x09); cases.push(v);
+    }
     // PushB length classes
     for n in [0usize, 1, 2, 31, 32, 33, 254, 255] {
         let mut v = vec![0xf0, n as u8]; v.extend(r.bytes(n)); cases.push(v.clone());
@@ -193,7 +197,21 @@ pub fn run(tier: &str, seed: u64, em: &mut Emitter) {
         st.bump(if ok { "decodable" } else { "undecodable" });
         st.bump(&format!("len_{}", match bs.len() { 0 => "0", 1..=3 => "1-3", 4..=16 => "4-16", 17..=64 => "17-64", _ => "65+" }));
         lines.push(l);
-        metas.push(format!("{{\"bytes\":\"{}\",\"decodable\":{}}}", hex::encode(bs), ok));
+        // reflection of C12 on the implementation alone: decode-then-encode is the identity, and
+        // encode-then-decode gives the program back
+        let mut viol = String::new();
+        if let Ok(c) = Covenant::from_bytes(bs) {
+            let re = std::panic::catch_unwind(|| c.to_bytes().to_vec());
+            match re {
+                Ok(b2) => {
+                    if &b2 != bs { viol = format!("\"C12\":\"decodes, but re-encodes to {} (a second byte string for the same program)\"", hex::encode(&b2)); }
+                    else if Covenant::from_bytes(&b2).map(|c2| c2.to_ops() != c.to_ops()).unwrap_or(true) { viol = "\"C12\":\"encode-then-decode does not return the program\"".into(); }
+                    else if melvm::covenant_weight_from_bytes(bs) != c.weight() { viol = "\"C12\":\"weight from bytes differs from weight of the decoded program\"".into(); }
+                }
+                Err(_) => { viol = "\"C12\":\"decoded program cannot be re-encoded (panic)\"".into(); }
+            }
+        }
+        metas.push(format!("{{\"bytes\":\"{}\",\"decodable\":{},\"violates\":{{{}}}}}", hex::encode(bs), ok, viol));
     }
     em.case_files("codec", "ccase", "check_codec", &lines, &metas, 400);
     em.stats("codec", st);
